@@ -157,33 +157,8 @@ func writeTree(w io.Writer, tpl *Tpl, ctx *Ctx) (err error) {
 func (t *Tpl) writeNode(w io.Writer, node *node, ctx *Ctx) (err error) {
 	switch node.typ {
 	case typeRaw:
-		if ctx.chJQ {
-			// JSON quote mode.
-			ctx.BufAcc.StakeOut()
-			jsonEscape(node.raw, &ctx.BufAcc)
-			_, err = w.Write(ctx.BufAcc.StakedBytes())
-		} else if ctx.chHE {
-			// HTML escape mode.
-			ctx.bufCB.Reset().Write(node.raw)
-			err = modHTMLEscape(ctx, &ctx.bufX, &ctx.bufCB, nil)
-			if err != nil {
-				_, err = w.Write(node.raw)
-			} else {
-				_, err = w.Write(ctx.bufMO.Bytes())
-			}
-		} else if ctx.chUE {
-			// URL encode mode.
-			ctx.bufCB.Reset().Write(node.raw)
-			err = modURLEncode(ctx, &ctx.bufX, &ctx.bufCB, nil)
-			if err != nil {
-				_, err = w.Write(node.raw)
-			} else {
-				_, err = w.Write(ctx.bufMO.Bytes())
-			}
-		} else {
-			// Raw node writes as is.
-			_, err = w.Write(node.raw)
-		}
+		// Raw node writes as is (escaped inside bound tags).
+		err = ctx.writeBound(w, node.raw)
 	case typeTpl:
 		// Get data from the context.
 		raw := ctx.get(node.raw)
@@ -243,23 +218,29 @@ func (t *Tpl) writeNode(w io.Writer, node *node, ctx *Ctx) (err error) {
 		}
 		// Convert modified data to bytes array.
 		if err = ctx.BufAcc.StakeOut().WriteX(raw).Error(); err == nil {
-			if ctx.BufAcc.StakedLen() == 0 {
+			b := ctx.BufAcc.StakedBytes()
+			if len(b) == 0 {
 				// Value is empty (e.g. pointer to empty string). Do nothing, prefix and suffix included.
 				return
 			}
 			if len(node.prefix) > 0 {
 				// Write prefix.
-				if _, err = w.Write(node.prefix); err != nil {
+				if err = ctx.writeBound(w, node.prefix); err != nil {
 					return
 				}
 			}
-			// Write bytes data.
-			if _, err = w.Write(ctx.BufAcc.StakedBytes()); err != nil {
+			// Write bytes data. Inside bound tags value must be escaped as well, unless it marked as raw.
+			if node.noesc {
+				_, err = w.Write(b)
+			} else {
+				err = ctx.writeBound(w, b)
+			}
+			if err != nil {
 				return
 			}
 			// Write suffix.
 			if len(node.suffix) > 0 {
-				_, err = w.Write(node.suffix)
+				err = ctx.writeBound(w, node.suffix)
 			}
 		}
 	case typeCtx:
@@ -643,6 +624,37 @@ func (t *Tpl) writeNode(w io.Writer, node *node, ctx *Ctx) (err error) {
 	default:
 		// Unknown node type caught.
 		err = ErrUnknownCtl
+	}
+	return
+}
+
+// Write p applying escaping of the bound tags ({% jsonquote %}, {% htmlescape %}, {% urlencode %}) if any is open.
+func (ctx *Ctx) writeBound(w io.Writer, p []byte) (err error) {
+	if ctx.chJQ {
+		// JSON quote mode.
+		ctx.BufAcc.StakeOut()
+		jsonEscape(p, &ctx.BufAcc)
+		_, err = w.Write(ctx.BufAcc.StakedBytes())
+	} else if ctx.chHE {
+		// HTML escape mode.
+		ctx.bufCB.Reset().Write(p)
+		err = modHTMLEscape(ctx, &ctx.bufX, &ctx.bufCB, nil)
+		if err != nil {
+			_, err = w.Write(p)
+		} else {
+			_, err = w.Write(ctx.bufMO.Bytes())
+		}
+	} else if ctx.chUE {
+		// URL encode mode.
+		ctx.bufCB.Reset().Write(p)
+		err = modURLEncode(ctx, &ctx.bufX, &ctx.bufCB, nil)
+		if err != nil {
+			_, err = w.Write(p)
+		} else {
+			_, err = w.Write(ctx.bufMO.Bytes())
+		}
+	} else {
+		_, err = w.Write(p)
 	}
 	return
 }
